@@ -210,6 +210,9 @@ impl Loader for Elf {
         self.wf() && symbols_wf(goblin::elf::parsed(self.bytes@), self.base_address)
     }
 
+    /// `architecture()` of a single Elf has no precondition
+    open spec fn architecture_req(&self) -> bool { true }
+
 //@ fn impl Loader for Elf :: fn memory nopub loops=1
 //@ rewrite 1 `for ph in elf.program_headers` => `for ph in it0: elf.program_headers` ## R-ghost-iter-name: names the ghost iterator of the for loop so that invariants can mention it; no executable change
 //@ closure 0 || -> (r0: Error)
